@@ -158,3 +158,35 @@ func TestC01_GridBig(t *testing.T) {
 	}
 	h.RunCases(t, "C01", cases, checkC01)
 }
+
+// TestC01_GridXmlnsField: an unused namespace declaration whose PREFIX is the name of an attribute the decoders read
+// (xmlns:IssueInstant, xmlns:Version, ...) added after signing — to the Response element or to the assertion, in
+// front of or behind the real attributes — for every signature placement and canonicalisation. Exclusive
+// canonicalisation neither covers nor keeps such a declaration; whatever is returned is still what was signed.
+func TestC01_GridXmlnsField(t *testing.T) {
+	var cases []AttackCase
+	for _, placement := range []string{"response", "assertions", "both"} {
+		for ci, c14n := range h.C14Ns {
+			for b := 11; b < 22; b++ {
+				for target := 1; target <= 2; target++ {
+					for a := 0; a < 4; a++ {
+						sp := h.BaseSP()
+						sp.Store = []h.CertRef{{Key: "T1", Window: "wide"}}
+						g := gridGenuine(sp, 1+(a+ci)%2, placement)
+						for _, sg := range append([]*h.SignSpec{g.RespSig}, g.AsrtSig...) {
+							if sg != nil {
+								sg.C14N = c14n
+							}
+						}
+						c := AttackCase{SP: sp, Pool: []*h.Genuine{g}, Ops: []h.Op{{Kind: "add-attr", A: a + 2*b, B: b, C: target}}}
+						if err := c.build(); err != nil {
+							t.Fatalf("harness: %v", err)
+						}
+						cases = append(cases, c)
+					}
+				}
+			}
+		}
+	}
+	h.RunCases(t, "C01", cases, checkC01)
+}
